@@ -825,6 +825,7 @@ qb_rb_write_to_file(struct qb_ringbuffer_s * rb, int32_t fd)
 qb_ringbuffer_t *
 qb_rb_create_from_file(int32_t fd, uint32_t flags)
 {
+	char rb_name[64];
 	ssize_t n_read;
 	size_t n_required;
 	size_t total_read = 0;
@@ -923,7 +924,11 @@ qb_rb_create_from_file(int32_t fd, uint32_t flags)
 	/*
 	 * qb_rb_open adds QB_RB_CHUNK_MARGIN + 1 to the requested size.
 	 */
-	rb = qb_rb_open("create_from_file", n_required - (QB_RB_CHUNK_MARGIN + 1),
+	/* a name of our own: two processes that print dumps at the same time
+	 * must not meet in (and lose half of) each other's files */
+	(void)snprintf(rb_name, sizeof(rb_name), "create_from_file-%d",
+		       (int)getpid());
+	rb = qb_rb_open(rb_name, n_required - (QB_RB_CHUNK_MARGIN + 1),
 			QB_RB_FLAG_CREATE | QB_RB_FLAG_NO_SEMAPHORE, 0);
 	if (rb == NULL) {
 		return NULL;
